@@ -21,6 +21,7 @@ import (
 	"runtime/debug"
 	"strings"
 	"sync"
+	"sync/atomic"
 	"testing"
 
 	"github.com/buildbarn/bb-remote-execution/pkg/filesystem/pool"
@@ -81,6 +82,11 @@ type env struct {
 
 	scratchBuf []byte
 	payloadBuf []byte
+
+	// Lower bounds of what the quota layer has handed out (concurrent
+	// modes, see contention_test.go).
+	heldFiles atomic.Int64
+	heldBytes atomic.Int64
 }
 
 func newEnv(r *ev.Run, c cfg, mode string, caseIdx int, rng *rand.Rand) *env {
@@ -711,14 +717,18 @@ func (e *env) opSeek(of *openFile, off int64, rt filesystem.RegionType) {
 func (e *env) opClose(slot int) {
 	of := e.slots[slot]
 	m := of.m
-	e.begin(m.id, fmt.Sprintf("close f%d (size %d, %d sectors)", m.id, m.size, len(m.allocated)), nil)
+	held := e.ownedSectors(m.id)
+	e.begin(m.id, fmt.Sprintf("close f%d (size %d, %d sectors)", m.id, m.size, len(m.allocated)), []faultKind{faultHoleClose})
 	err := of.f.Close()
+	fired := e.plan.fired
 	e.end()
 	e.logResult(errClass(err))
+	// Whether or not Close reports an error, the file is gone: its
+	// sectors and its share of the quota have to be available again.
 	e.slots[slot] = nil
 	e.filesOpen--
 	e.bytesUsed -= m.size
-	if err != nil {
+	if err != nil && !(fired && isInjected(err)) {
 		e.violate("unexpected-error op=close code="+errClass(err), err.Error())
 		return
 	}
@@ -726,8 +736,23 @@ func (e *env) opClose(slot int) {
 		e.violate("hole-source-not-closed-once", fmt.Sprintf("after Close of file %d its hole source was closed %d times", m.id, c))
 		return
 	}
+	sig := "sectors-not-freed-on-close"
+	if fired {
+		sig += " after=close/fault"
+		e.sit("fault-" + faultHoleClose.String())
+		if held > 0 {
+			e.sit("failed-close-holding-sectors")
+		}
+		if m.size > 0 {
+			e.sit("failed-close-holding-quota")
+		}
+	}
 	if n := e.ownedSectors(m.id); n != 0 {
-		e.violate("sectors-not-freed-on-close", fmt.Sprintf("file %d still holds %d sectors after Close", m.id, n))
+		e.violate(sig, fmt.Sprintf("file %d still holds %d sectors after Close = %v", m.id, n, err))
+		return
+	}
+	if fired {
+		e.probeQuota("close/fault")
 	}
 }
 
@@ -1268,7 +1293,9 @@ func TestCheck(t *testing.T) {
 	r.Assume("GetNextRegionOffset may over-report data (allocation granularity) but a reported hole must only contain null bytes")
 	floors := []string{"write-fills-hole-mid-file", "shrink-into-sector-then-regrow", "allocation-split-across-fragments",
 		"exhaustion-mid-write", "failed-newfile-with-size", "failed-device-write-after-allocation", "sector-reused-by-another-file",
-		"fault-devRead", "fault-holeRead", "fault-holeTruncate", "fault-devShortRead", "fault-holeShortRead", "fault-holeSeek", "fault-baseTruncate", "failed-grow", "invalid-argument-without-quota-layer", "failed-shrink", "quota-denied", "seek-hole-inside-file", "concurrent-round"}
+		"fault-devRead", "fault-holeRead", "fault-holeTruncate", "fault-devShortRead", "fault-holeShortRead", "fault-holeSeek", "fault-baseTruncate", "failed-grow", "invalid-argument-without-quota-layer", "failed-shrink", "quota-denied", "seek-hole-inside-file", "concurrent-round",
+		"fault-holeClose", "failed-close-holding-sectors", "failed-close-holding-quota",
+		"concurrent-failed-device-write", "quota-contention-round", "quota-contention-denied"}
 
 	stepped := func(i int) {
 		rng := r.Rand(1, uint64(i))
@@ -1287,9 +1314,13 @@ func TestCheck(t *testing.T) {
 		}
 		if mode == "stepped" {
 			stepped(idx)
-		} else {
+		} else if mode == "concurrent" {
 			for k := 0; k < 20; k++ {
 				runConcurrentRound(r, idx)
+			}
+		} else {
+			for k := 0; k < 20; k++ {
+				runQuotaContentionRound(r, idx)
 			}
 		}
 		return
@@ -1298,14 +1329,23 @@ func TestCheck(t *testing.T) {
 		r.Floor(s, 3)
 	}
 
+	// VERIF_C15_PHASE=stepped|concurrent|contention runs one phase only
+	// (debugging aid; the floors of the other phases are then missed).
+	phase := os.Getenv("VERIF_C15_PHASE")
+
 	nStepped := r.Pick(800, 12000)
-	for i := 0; i < nStepped; i++ {
+	for i := 0; i < nStepped && (phase == "" || phase == "stepped"); i++ {
 		stepped(i)
 	}
 
 	nRounds := r.Pick(40, 600)
-	for i := 0; i < nRounds; i++ {
+	for i := 0; i < nRounds && (phase == "" || phase == "concurrent"); i++ {
 		runConcurrentRound(r, i)
+	}
+
+	nContention := r.Pick(16, 200)
+	for i := 0; i < nContention && (phase == "" || phase == "contention"); i++ {
+		runQuotaContentionRound(r, i)
 	}
 }
 
